@@ -376,11 +376,46 @@ Example C13_mask_reads_nonvacuous :
   nthZ (tMaskUpto initMasks) 64 = None.
 Proof. vm_compute. intuition congruence. Qed.
 
+(** * widened: one bitmap that is UPDATED IN PLACE between the queries (as Builder.Set / TailBitmap.Set do) *)
+From Low Require Import Model.BitmapNextSession Spec.NextSessionSpec Proofs.NextSession.
+
+(** a session of NextOne / PrevOne calls and in-place "set bit" updates on one bitmap never panics inside the
+    domain, and every query is answered for the bitmap as it is at the moment of the call *)
+Theorem C13_Session : forall steps bm, words_ok bm -> 64 * zlen bm < 2^31 ->
+  forallb (step_dom (64 * zlen bm)) steps = true ->
+  Session bm steps = Some (spec_session bm steps).
+Proof. exact Session_exact. Qed.
+Print Assumptions C13_Session.
+
+(** the update of a session step sets bit [p] and leaves every other bit alone *)
+Theorem C13_SetBit_bits : forall bm p bm', words_ok bm -> 0 <= p < 64 * zlen bm -> SetBit bm p = Some bm' ->
+  forall q, 0 <= q < 64 * zlen bm -> bitz (flat bm') q = if q =? p then true else bitz (flat bm) q.
+Proof. exact SetBit_bits. Qed.
+Print Assumptions C13_SetBit_bits.
+
+(** the suffix scan the driver evaluates for bitmaps of 2^17 words IS the model, for every argument *)
+Theorem C13_NextOneFast : forall bm i e, NextOneFast bm i e = NextOne bm i e.
+Proof. exact NextOneFast_eq. Qed.
+Print Assumptions C13_NextOneFast.
+
+Example C13_Session_nonvacuous :
+  words_ok [1; 0; 0; 2] /\
+  Session [1; 0; 0; 2] [[0; 1; 256]; [1; 1; 193]; [2; 70; 0]; [0; 1; 256]; [1; 1; 193]; [2; 130; 0]; [1; 1; 193]] =
+    Some [193; -1; 0; 70; 70; 0; 130] /\
+  spec_session [1; 0; 0; 2] [[0; 1; 256]; [1; 1; 193]; [2; 70; 0]; [0; 1; 256]; [1; 1; 193]; [2; 130; 0]; [1; 1; 193]] =
+    [193; -1; 0; 70; 70; 0; 130] /\
+  SetBit [1; 0; 0; 2] 70 = Some [1; 64; 0; 2] /\
+  NextOneFast [1; 0; 0; 2] 1 256 = Some 193 /\ NextOneFast [1; 0; 0; 2] 64 192 = Some (-1).
+Proof.
+  split; [apply words_okb_ok; reflexivity|].
+  vm_compute. intuition congruence.
+Qed.
+
 (** * the protocol operations of ./check C13 against the theorems above *)
 From Coq Require String.
 From Low Require Import Lib.Val Run.C13 Proofs.NextRunProofs.
 
-(** for EVERY argument list, each of the 18 operations of [ops_C13] (Run/C13.v, Run/NextWide.v) either rejects the
+(** for EVERY argument list, each of the 21 operations of [ops_C13] (Run/C13.v, Run/NextWide.v) either rejects the
     arguments as malformed / outside its domain ([VBad]) or produces a model output that its specification side
     accepts: the functions the driver evaluates are exactly the ones the theorems of this file are about *)
 Theorem C13_ops_model_satisfies_spec : Forall op_ok ops_C13.
@@ -393,7 +428,7 @@ Proof. exact C13_never_modelbug. Qed.
 Print Assumptions C13_never_modelbug.
 
 Example C13_ops_nonvacuous :
-  List.length ops_C13 = 18%nat /\
+  List.length ops_C13 = 21%nat /\
   (exists d, In d ops_C13 /\
      op_run d [VL [VL [VZ 1; VZ 4]]; VZ 3; VZ 128] = VZ 66 /\
      op_spec d [VL [VL [VZ 1; VZ 4]]; VZ 3; VZ 128] (VZ 66) = true /\
